@@ -710,8 +710,8 @@ class Fxp():
                     val, signed, n_word, _ = utils.str2num(val, self.signed, self.n_word, None, return_sizes=True)
                     n_frac = self.n_frac
 
-                if n_frac is not None and n_frac == 0:
-                    vdtype = int
+                if raw or (n_frac is not None and n_frac == 0):
+                    vdtype = int    # (raw values are integers: they must not go through float)
                 else:
                     vdtype = float
 
